@@ -1,5 +1,5 @@
 """Registry of all translators: Gen/<name>.v  <-  function returning Coq text."""
-from translate import ops, gatecode, wrapper, groupsum, guards, parse, models, dispatch, thermo
+from translate import ops, gatecode, wrapper, groupsum, guards, parse, models, dispatch, thermo, libio, persist
 
 ALL = {
     "Ops": ops.gen_ops,
@@ -14,4 +14,6 @@ ALL = {
     "Models": models.gen_models,
     "Dispatch": dispatch.gen_dispatch,
     "ThermoSrc": thermo.gen_thermo,
+    "LibIO": libio.gen_libio,
+    "Persist": persist.gen_persist,
 }
